@@ -5,7 +5,7 @@ from srcreplay import replay_src  # translated source run in Coq vs the real out
 
 PROP = {
     "confirm_scenarios": ['silence.*'],
-    "coq": ["C19", "C19s", "C19b", "C19c"],
+    "coq": ["C19", "C19s", "C19b", "C19c", "C19t"],
     "pre": [regen_src],
     "extra": [replay_src({'timing'})],
     "exhaustive": False,
